@@ -146,13 +146,6 @@ def hook_packages(
     # ....................{ HOOKS                          }....................
     # With a submodule-specific thread-safe reentrant lock...
     with claw_lock:
-        # ....................{ BLACKLIST                  }....................
-        # If blacklisting one or more packages from type-checking, do so.
-        # print(f'Blacklisting packages: {repr(conf.claw_skip_package_names)}')
-        if conf.claw_skip_package_names:
-            _blacklist_packages(conf.claw_skip_package_names)
-        # Else, *NO* packages are being blacklisted from type-checking. Fine!
-
         # ....................{ WHITELIST ~ beartype_all   }....................
         # If type-checking *ALL* packages, do so.
         if claw_coverage is BeartypeClawCoverage.PACKAGES_ALL:
@@ -161,6 +154,16 @@ def hook_packages(
         # Else, only a subset of packages are being type-checked. Do it! Do it!
         else:
             _whitelist_packages_some(package_names=package_names, conf=conf)  # type: ignore[arg-type]
+
+        # ....................{ BLACKLIST                  }....................
+        # If blacklisting one or more packages from type-checking, do so. Note
+        # that we intentionally do so only *AFTER* the above whitelisting has
+        # succeeded, ensuring that a call raising an exception on a conflicting
+        # beartype configuration leaves the blacklist unmodified.
+        # print(f'Blacklisting packages: {repr(conf.claw_skip_package_names)}')
+        if conf.claw_skip_package_names:
+            _blacklist_packages(conf.claw_skip_package_names)
+        # Else, *NO* packages are being blacklisted from type-checking. Fine!
 
         # ....................{ path hook                  }....................
         # Lastly, if our beartype import path hook singleton has *NOT* already
@@ -378,6 +381,39 @@ def _whitelist_packages_some(
 
     # Avoid circular import dependencies.
     from beartype.claw._clawstate import claw_state
+
+    # For the fully-qualified name of each package to be whitelisted, raise an
+    # exception if that package has already been whitelisted with a conflicting
+    # beartype configuration *BEFORE* whitelisting any of these packages below.
+    # Doing so ensures that a call raising this exception leaves our global
+    # package trie whitelist unmodified (rather than whitelisting the leading
+    # subset of these packages preceding the first conflicting package).
+    for package_name in package_names:  # type: ignore[union-attr]
+        # Package trie describing this package if this package or a subpackage
+        # of this package has already been whitelisted *OR* "None" otherwise.
+        subpackages_trie_whitelist = claw_state.packages_trie_whitelist
+        for package_basename in package_name.split('.'):
+            subpackages_trie_whitelist = subpackages_trie_whitelist.get(  # type: ignore[assignment]
+                package_basename)
+            if subpackages_trie_whitelist is None:
+                break
+        # If this package trie exists...
+        else:
+            conf_curr = subpackages_trie_whitelist.conf_if_hooked
+
+            # If this package has already been whitelisted with a different
+            # beartype configuration, raise an exception.
+            if conf_curr is not None and conf_curr != conf:
+                raise BeartypeClawHookException(
+                    f'Beartype import hook '
+                    f'(e.g., beartype.claw.beartype_*() function) '
+                    f'previously passed conflicting beartype configuration for '
+                    f'package "{package_name}":\n'
+                    f'\t----------( OLD "conf" PARAMETER )----------\n'
+                    f'\t{repr(conf_curr)}\n'
+                    f'\t----------( NEW "conf" PARAMETER )----------\n'
+                    f'\t{repr(conf)}\n'
+                )
 
     # For the fully-qualified name of each package to be whitelisted...
     for package_name in package_names:  # type: ignore[union-attr]
